@@ -260,6 +260,21 @@ pub fn run(prop: PathProp, tier: Tier, seed: u64) -> i32 {
         }
         ctx.merge(b);
     });
+    if matches!(prop, PathProp::C01 | PathProp::C03 | PathProp::C05) {
+        // hand-shaped worlds: a tree that spirals around a finite wall (steps.rs `spiral_case`)
+        let mut b = Batch::default();
+        for v in 0..64usize {
+            for kind in [PKind::Star, PKind::Rrt, PKind::Connect] {
+                let mut r = Sm::derive(seed, &[prop as u64 + 270, v as u64]);
+                let case = super::steps::spiral_case(&mut r, v, kind);
+                let script: Vec<Vec<f64>> = case.script.iter().map(|i| case.letters[*i].clone()).collect();
+                let sc = Scenario { problem: case.problem, params: case.params, iters: script.len() as u64, prm_samples: 0, script: Some(script), query_budget: 1_500_000 };
+                run_case(prop, &ctx, &mut b, &sc);
+                b.count("spiral_cases", 1);
+            }
+        }
+        ctx.merge(b);
+    }
     if prop == PathProp::C02 {
         c02_histories(&ctx, tier, seed);
         ctx.require("history_paths_after_problem_change");
